@@ -86,16 +86,12 @@ def _fpmodel(model, names):
                 elif v.isInf():
                     env[n] = float('-inf') if v.isNegative() else float('inf')
                 else:
-                    # exact value: sign * significand * 2^exponent
-                    sig = Fraction(v.significand_as_long(), 2 ** (v.sbits() - 1))
-                    ex = v.exponent_as_long(False)
-                    if v.isSubnormal():
-                        val = sig * Fraction(2) ** (ex + 1) if ex < 0 else sig * 2 ** (ex + 1)
-                    else:
-                        val = sig * (Fraction(2) ** ex)
+                    # exact value through z3's own conversion to a rational
                     if v.isZero():
-                        val = Fraction(0)
-                    env[n] = float(-val if v.isNegative() else val)
+                        env[n] = -0.0 if v.isNegative() else 0.0
+                    else:
+                        q = z3.simplify(z3.fpToReal(v))
+                        env[n] = float(Fraction(q.numerator_as_long(), q.denominator_as_long()))
         except Exception:
             env[n] = float(eval(str(v).replace('*(2**', '*(2.0**'))) if False else None
     return env
